@@ -15,7 +15,10 @@ def main() -> int:
     a = ap.parse_args()
     seed = int(os.environ.get("VERIF_SEED", "0") or 0)
     pid = a.pid.upper()
+    from harness import cov
     from harness.core import Ctx, MachineryError
+
+    cov.start()
 
     mod = importlib.import_module(f"harness.props.{pid.lower()}")
     ctx = Ctx(pid, a.tier, seed, level=getattr(mod, "LEVEL", "model_checking"))
@@ -28,7 +31,9 @@ def main() -> int:
         ctx.machinery_errors.append(str(e))
     except Exception:
         ctx.machinery_errors.append("harness exception: " + traceback.format_exc()[-1500:])
-    return ctx.finish()
+    rc = ctx.finish()
+    cov.save()
+    return rc
 
 
 if __name__ == "__main__":
